@@ -247,6 +247,8 @@ class Program:
             r = self.impl_index.get((parts[-2], None, parts[-1]))
             if r:
                 return r[0]
+            r = [n for n in self.impl_index.get((parts[-2], '*', parts[-1]), []) if self._macro_impl(n)]
+            if len(r) == 1: return r[0]
         return None
 
     def _macro_impl(self, name):
@@ -747,7 +749,11 @@ class Machine:
             vi = self.prog.variant_index(en, vn)
             if vi is not None:
                 return Adt(en, vi, [])
-        if self.prog.resolve_crate_fn(s):
+        r0 = self.prog.resolve_crate_fn(s)
+        if r0:
+            f0 = self.prog.fns.get(r0)
+            if f0 is not None and f0.kind != 'fn':
+                return deep_copy(self.static_cell(r0).v)
             return FnItem(s)
         # item nested in a function that the use site names through its impl type: Type::method::{closure#0}::NAME
         for k in range(len(parts) - 1, 0, -1):
@@ -782,6 +788,7 @@ class Machine:
             v = self.load(cell, path)
             if isinstance(v, Coroutine): return v.state
             if isinstance(v, Adt): return self.prog.discr_value(v)
+            if isinstance(v, int) and not isinstance(v, bool): return v      # fieldless enum produced by transmute from its integer
             if isinstance(v, (Ref, BoxV)):
                 v2 = self.rdd(v)
                 if isinstance(v2, Adt): return self.prog.discr_value(v2)
